@@ -139,6 +139,9 @@ def generate(ctx):
     rng = ctx.rng
     for i in range(ctx.n(150, 4000)):
         rel, notes = G.gen_wf_rel(rng)
+        if rng.random() < 0.5:
+            rel = G.unconsolidate(rng, rel)
+            ctx.count("rel:unconsolidated")
         a, notes2 = G.gen_wf_abs(rng)
         _, dur = rel_timed(rel)
         n = rng.choice([0, max(0, dur - 1), dur, dur + 1, dur + rng.randint(1, 100), rng.randint(0, 300)])
